@@ -311,7 +311,10 @@ class n0list(n0list_):
                                 if isinstance(self_value, (datetime.date, datetime.datetime)):
                                     difference = datetime.datetime.fromtimestamp(float(other_value.timestamp()) - float(self_value.timestamp()))
                                 else:
-                                    difference = round(float(other_value) - float(self_value), 7)
+                                    try:
+                                        difference = round(float(other_value) - float(self_value), 7)
+                                    except OverflowError:  # ints beyond the range of float: the difference is exact
+                                        difference = other_value - self_value
                             result["not_equal"][-1][1].append(difference)
                         result["differences"].append(
                             "Values are different: " +
@@ -528,6 +531,8 @@ class n0list(n0list_):
                                     difference = round(float(other_value) - float(self_value), 7)
                                 except ValueError:  # self_value or other_value could not be converted to float
                                     difference = None
+                                except OverflowError:  # ints beyond the range of float: the difference is exact
+                                    difference = other_value - self_value
                                 result["not_equal"][-1][1].append(difference)
                             result["differences"].append(
                                 "Values are different: " +
@@ -834,6 +839,8 @@ class n0dict(n0dict_):
                                         difference = round(float(other_value) - float(self_value), 7)
                                     except ValueError:  # self_value or other_value could not be converted to float
                                         difference = None
+                                    except OverflowError:  # ints beyond the range of float: the difference is exact
+                                        difference = other_value - self_value
                                     result["not_equal"][-1][1].append(difference)
                                 result["differences"].append(
                                     "Values are different: " +
